@@ -2,7 +2,7 @@
    Partial by design (DESIGN §C14): the eigen solvers are certificate-checked oracles in the correspondence. *)
 From Coq Require Import List Arith Bool Reals Ring Permutation Sorted.
 From PV Require Import Base.Index Base.Sum Np.Array Model.Sparse Model.Repr Model.C01Conv Model.C01Coo Model.C01Ttm Np.NpR Model.C14Nvecs Model.C14Gram Proofs.C14Sums
-                       Proofs.C14Split Proofs.C14GramSp Proofs.C14GramT Proofs.C14Post Model.C14Unfold Proofs.C14Unfold Model.C01Unique Proofs.C14Coo.
+                       Proofs.C14Split Proofs.C14GramSp Proofs.C14GramT Proofs.C14Post Model.C14Unfold Proofs.C14Unfold Model.C01Unique Model.C14SpPath Proofs.C14Coo Proofs.C14SpPath Model.C14SpChain Proofs.C14SpChain.
 Import ListNotations.
 
 Section C14_ring.
@@ -91,7 +91,78 @@ Theorem C14_coo_product : forall (C : coo V) (K N a b : nat), coo_shape C = [K; 
   Forall (fun rc => inb [K; N] rc = true) (coo_subs C) ->
   coo_gram v0 vadd vmul (coo_triples C) a b = sum_n v0 vadd K (fun k => vmul (den_coo v0 vadd C [k; a]) (den_coo v0 vadd C [k; b])).
 Proof. exact (coo_gram_den V v0 v1 vadd vmul vsub vopp Vring). Qed.
+(* wave 3b — sptensor.nvecs as the code runs it: old = setdiff1d(arange(N), n); reshape((prod(shape[old]), 1), old) transliterated over
+   the GENERATED tt_sub2ind / tt_ind2sub (regenerated from pyttb_utils.py on every run), squeeze(), C01's spmatrix(), transpose():
+   whenever mode n and the product of the other modes exceed 1 the request is accepted and tnt holds, in the stored order, exactly
+   the triples (F-order key of the other modes' subscripts, mode-n subscript, value) C14_gram_sparse speaks about *)
+Theorem C14_sparse_rekey_bridge : forall (S : sparse V) (n : nat),
+  let s := sshape S in
+  n < length s -> length (ssubs S) = length (svals S) -> Forall (fun i => inb s i = true) (ssubs S) ->
+  1 < nth n s 0 -> 1 < size (remove_nth n s) ->
+  exists C, sp_nvecs_tnt v0 S n = Some C /\ coo_shape C = [size (remove_nth n s); nth n s 0] /\
+            Forall (fun rc => inb (coo_shape C) rc = true) (coo_subs C) /\
+            coo_triples C = sp_triples S n.
+Proof. exact (sp_triples_bridge V v0). Qed.
+
+(* hence y = tnt.T.dot(tnt) formed on that code path IS gram_sp_impl … *)
+Theorem C14_gram_sparse_code : forall (S : sparse V) (n : nat),
+  let s := sshape S in
+  n < length s -> length (ssubs S) = length (svals S) -> Forall (fun i => inb s i = true) (ssubs S) ->
+  1 < nth n s 0 -> 1 < size (remove_nth n s) ->
+  gram_sp_code_path v0 vadd vmul S n = Some (gram_sp_impl v0 vadd vmul S n).
+Proof. exact (gram_sp_code_path_eq V v0 vadd vmul). Qed.
+
+(* … which is both the MATRIX product of the arrays the COO matrices denote (C14_coo_product connected to C14_gram_sparse through the
+   bridge) and gram_spec of the denotation den_sp *)
+Theorem C14_gram_sparse_code_spec : forall (S : sparse V) (n a b : nat),
+  let s := sshape S in
+  wf_sp isz S -> n < length s -> 1 < nth n s 0 -> 1 < size (remove_nth n s) -> a < nth n s 0 -> b < nth n s 0 ->
+  exists C Y, sp_nvecs_tnt v0 S n = Some C /\ coo_shape C = [size (remove_nth n s); nth n s 0] /\
+    gram_sp_code_path v0 vadd vmul S n = Some Y /\
+    mget v0 Y a b = sum_n v0 vadd (size (remove_nth n s)) (fun k => vmul (den_coo v0 vadd C [k; a]) (den_coo v0 vadd C [k; b])) /\
+    mget v0 Y a b = gram_spec v0 vadd vmul s (den_sp v0 S) n a b.
+Proof. exact (gram_sp_code_path_spec V v0 v1 vadd vmul vsub vopp Vring isz). Qed.
+
+(* the other side of that condition (open finding C14-F2, here as a theorem about the code path): when mode n has size <= 1, or the
+   other modes are all singletons, squeeze() leaves fewer than two modes and the request is REFUSED (AssertionError of spmatrix /
+   ValueError), although the property asks for the 1 x 1 answer the other representations give *)
+Theorem C14_sparse_singleton_refused : forall (S : sparse V) (n : nat),
+  let s := sshape S in
+  n < length s -> nth n s 0 <= 1 \/ size (remove_nth n s) <= 1 -> sp_nvecs_tnt v0 S n = None.
+Proof. exact (sp_nvecs_tnt_refused V v0). Qed.
+
+(* wave 3b — the multi-mode sptensor.ttm chain H = core.ttm(V) of the sparse-core branch as the code runs it: first mode by the
+   coordinate-level kernel of sptensor.ttm (C02_ttm_sparse; its ndarray result goes through from_array / to_sptensor / to_tensor),
+   the remaining modes by tensor.ttm: the chain IS tensor.ttm over all modes of the expanded core, a well-formed dense tensor
+   holding core x_m V_m … *)
+Theorem C14_sparse_ttm_chain : forall (S : sparse V) (Ms : list (list (list V))),
+  wf_sp isz S -> Ms <> [] -> length (sshape S) = length Ms ->
+  let H := sp_ttm_chain v0 vadd vmul isz S Ms in
+  wf_dense H /\ dshape H = map (@nrows V) Ms /\
+  forall i, den_dense v0 H i = den_t v0 v1 vadd vmul (mkT (full v0 S) Ms) i.
+Proof. exact (sp_ttm_chain_correct V v0 v1 vadd vmul vsub vopp Vring isz isz_spec). Qed.
+
+(* … so C14_gram_tucker_sparse_core holds for the H the code computes, with no hypothesis about H left *)
+Theorem C14_gram_tucker_sparse_core_code : forall (GS : sparse V) (Us : list (list (list V))) (n : nat),
+  let T := mkT (full v0 GS) Us in
+  wf_sp isz GS -> wf_tucker V T -> n < length Us ->
+  gram_tsp_tm v0 vadd vmul isz (HDense (sp_ttm_chain v0 vadd vmul isz GS (tucker_vs v0 vadd vmul Us n))) GS (nth n Us []) n
+  = Some (gram_t_impl v0 v1 vadd vmul T n).
+Proof. exact (gram_tsp_chain_eq V v0 v1 vadd vmul vsub vopp Vring isz isz_spec). Qed.
+Theorem C14_gram_tucker_sparse_core_code_spec : forall (GS : sparse V) (Us : list (list (list V))) (n a b : nat),
+  let T := mkT (full v0 GS) Us in
+  wf_sp isz GS -> wf_tucker V T -> n < length Us -> a < nrows (nth n Us []) -> b < nrows (nth n Us []) ->
+  exists Y, gram_tsp_tm v0 vadd vmul isz (HDense (sp_ttm_chain v0 vadd vmul isz GS (tucker_vs v0 vadd vmul Us n))) GS (nth n Us []) n = Some Y /\
+    mget v0 Y a b = gram_spec v0 vadd vmul (tshape T) (den_t v0 v1 vadd vmul T) n a b.
+Proof. exact (gram_tsp_chain_spec V v0 v1 vadd vmul vsub vopp Vring isz isz_spec). Qed.
 End C14_ring.
+Print Assumptions C14_sparse_rekey_bridge.
+Print Assumptions C14_gram_sparse_code.
+Print Assumptions C14_gram_sparse_code_spec.
+Print Assumptions C14_sparse_singleton_refused.
+Print Assumptions C14_sparse_ttm_chain.
+Print Assumptions C14_gram_tucker_sparse_core_code.
+Print Assumptions C14_gram_tucker_sparse_core_code_spec.
 Print Assumptions C14_coo_product.
 Print Assumptions C14_gram_tucker_sparse_core.
 Print Assumptions C14_gram_tucker_sparse_core_spec.
@@ -145,6 +216,26 @@ Example C14_example_coo :
   coo_gram 0 Nat.add Nat.mul (coo_triples C) 0 1 = 18 /\ coo_gram 0 Nat.add Nat.mul (coo_triples C) 1 1 = 36 /\
   coo_toarray 0 Nat.add C = mkDense [3; 2] [3; 0; 2; 6; 0; 0].
 Proof. exact coo_gram_example. Qed.
+
+Example C14_example_sparse_code_path :
+  let S := mkSp [2; 3; 2] [[1; 2; 0]; [0; 0; 1]; [1; 0; 0]; [0; 2; 0]] [5; 2; 3; 4] in
+  sp_nvecs_tnt 0 S 1 = Some (mkCoo [4; 3] [[1; 2]; [2; 0]; [1; 0]; [0; 2]] [5; 2; 3; 4]) /\
+  sp_nvecs_tnt 0 S 0 = Some (mkCoo [6; 2] [[2; 1]; [3; 0]; [0; 1]; [2; 0]] [5; 2; 3; 4]) /\
+  gram_sp_code_path 0 Nat.add Nat.mul S 1 = Some [[13; 0; 15]; [0; 0; 0]; [15; 0; 41]] /\
+  gram_sp_code_path 0 Nat.add Nat.mul S 0 = Some [[20; 20]; [20; 34]] /\
+  sp_nvecs_tnt 0 (mkSp [1; 4; 3] [[0; 1; 2]; [0; 3; 0]] [2; 1]) 0 = None /\
+  sp_nvecs_tnt 0 (mkSp [3; 1] [[0; 0]; [2; 0]] [2; 3]) 0 = None.
+Proof. exact sp_path_example. Qed.
+
+Example C14_example_sparse_chain :
+  let GS := mkSp [2; 1; 2] [[1; 0; 1]; [0; 0; 0]; [1; 0; 0]] [3; 1; 2] in
+  let Us := [[[1; 0]; [2; 1]; [0; 1]]; [[2]; [1]]; [[1; 1]; [0; 2]]] in
+  let H := fun n => sp_ttm_chain 0 Nat.add Nat.mul (Nat.eqb 0) GS (tucker_vs 0 Nat.add Nat.mul Us n) in
+  dshape (H 1) = [2; 2; 2] /\ ddata (H 1) = [30; 24; 15; 12; 78; 72; 39; 36] /\
+  H 1 = ttensor_full_impl 0 Nat.add Nat.mul (mkT (full 0 GS) (tucker_vs 0 Nat.add Nat.mul Us 1)) /\
+  gram_tsp_tm 0 Nat.add Nat.mul (Nat.eqb 0) (HDense (H 1)) GS (nth 1 Us []) 1 = Some [[588; 294]; [294; 147]] /\
+  gram_tsp_tm 0 Nat.add Nat.mul (Nat.eqb 0) (HDense (H 0)) GS (nth 0 Us []) 0 = Some (gram_t_impl 0 1 Nat.add Nat.mul (mkT (full 0 GS) Us) 0).
+Proof. exact sp_chain_example. Qed.
 
 Example C14_example_gram :
   gram_k_impl 0%nat Nat.add Nat.mul (mkK [2; 1] [[[1; 0]; [1; 2]]; [[3; 1]; [0; 1]; [1; 0]]]) 0 = [[40; 52]; [52; 72]]
